@@ -859,7 +859,8 @@ impl<'a> Gen<'a> {
     fn fresh_name(&mut self, prefix: &str) -> String {
         self.fresh += 1;
         // names may repeat on purpose (shadowing)
-        let pool = ["v", "w", "x", "foo", "v1"];
+        // among them names a convenience feature might claim for itself inside map / fold bodies
+        let pool = ["v", "w", "x", "foo", "v1", "index", "value", "key", "item", "acc", "so_far", "i", "it", "self"];
         if self.tape.chance(1, 3) {
             format!("{}{}", prefix, self.fresh)
         } else {
